@@ -11,7 +11,7 @@ use crate::*;
 
 impl Parsable for i32 {
     fn parse_impl<S: TexlangState>(input: &mut vm::ExpandedStream<S>) -> txl::Result<Self> {
-        let (_, i, _) = parse_integer(input)?;
+        let (_, i, _, _) = parse_integer(input)?;
         Ok(i)
     }
 }
@@ -40,7 +40,7 @@ impl Uint<0> {
 
 impl<const N: usize> Parsable for Uint<N> {
     fn parse_impl<S: TexlangState>(input: &mut vm::ExpandedStream<S>) -> txl::Result<Self> {
-        let (first_token, i, _) = parse_integer(input)?;
+        let (first_token, i, _, _) = parse_integer(input)?;
         if i < 0 || i as usize >= N {
             input.error(OutOfBoundsError::<N> {
                 first_token,
@@ -74,7 +74,7 @@ impl<const N: usize> error::TexError for OutOfBoundsError<N> {
 
 impl Parsable for char {
     fn parse_impl<S: TexlangState>(input: &mut vm::ExpandedStream<S>) -> txl::Result<Self> {
-        let (first_token, i, _) = parse_integer(input)?;
+        let (first_token, i, _, _) = parse_integer(input)?;
         let c_or = match u32::try_from(i) {
             Ok(u) if u < char::MAX as u32 => match char::from_u32(u) {
                 // The surrogate code points are in the range but are not characters.
@@ -105,7 +105,7 @@ impl Parsable for char {
 // TODO: move to types/catcode.rs
 impl Parsable for types::CatCode {
     fn parse_impl<S: TexlangState>(input: &mut vm::ExpandedStream<S>) -> txl::Result<Self> {
-        let (token, i, _) = parse_integer(input)?;
+        let (token, i, _, _) = parse_integer(input)?;
         if let Ok(val_u8) = u8::try_from(i) {
             if let Ok(cat_code) = types::CatCode::try_from(val_u8) {
                 return Ok(cat_code);
@@ -133,9 +133,14 @@ const GUIDANCE_BEGINNING: &str =
 ";
 
 /// TeX.2021.440 (scan_int)
+///
+/// Returns the first token of the number, its value, the radix if the number is
+/// a constant, and whether that constant was terminated by a space (in TeX
+/// `cur_tok` is then the space, so a following decimal point is not part of
+/// the number).
 pub(crate) fn parse_integer<S: TexlangState>(
     stream: &mut vm::ExpandedStream<S>,
-) -> txl::Result<(token::Token, i32, Option<u8>)> {
+) -> txl::Result<(token::Token, i32, Option<u8>, bool)> {
     let sign = parse_optional_signs(stream)?;
     let first_token = stream.next_or_err(NumberEndOfInputError {})?;
     let (result, radix) = match first_token.value() {
@@ -167,6 +172,17 @@ pub(crate) fn parse_integer<S: TexlangState>(
             (0, None)
         }
     };
+    // TeX.2021.444: one optional space after a numeric constant
+    let mut space_terminated = false;
+    if radix.is_some() {
+        if let Some(next) = stream.next()? {
+            if next.cat_code() == Some(types::CatCode::Space) {
+                space_terminated = true;
+            } else {
+                stream.back(next);
+            }
+        }
+    }
     let result = match sign {
         None => result,
         // The only i32 that is not safe to multiply by -1 is i32::MIN.
@@ -174,7 +190,7 @@ pub(crate) fn parse_integer<S: TexlangState>(
         // is i32::MIN again.
         Some(_) => result.wrapping_mul(-1),
     };
-    Ok((first_token, result, radix))
+    Ok((first_token, result, radix, space_terminated))
 }
 
 #[derive(Debug)]
@@ -417,7 +433,6 @@ fn parse_constant<S: TexlangState, const RADIX: i32>(
         let got = stream.peek()?;
         stream.error(parse::Error::new(expected, got, guidance))?;
     }
-    super::OptionalSpace::parse(stream)?;
     Ok(result)
 }
 
